@@ -87,7 +87,8 @@ def h(t, part):
                         return 'ret-' + tag
                 return m
             meth['on_' + e] = mk(e)
-        return type('NS', (nsbase,), meth)(nsname)
+        common = type('Common', (nsbase,), meth)        # handlers live one level up (Chat(Common(Namespace)))
+        return type('NS', (common,), {})(nsname)
 
     with notrace():
         drv = worlds.AsyncDriver() if is_async else worlds.SyncDriver()
